@@ -291,12 +291,12 @@ class Model:
         return dict(
             logic=self.logic, worlds=self.worlds, R=sorted(self.R),
             consts=A.to_json(tuple(self.consts)),
-            atoms=[[w, A.to_json(k), v] for w, m in sorted(self.atoms.items()) for k, v in sorted(m.items())],
+            atoms=[[w, A.to_json(k), v] for w, m in sorted(self.atoms.items()) for k, v in sorted(m.items(), key=repr)],
             preds=[[w, A.to_json(p) if not isinstance(p, str) else p, A.to_json(k), v]
                    for w, m in sorted(self.preds.items())
                    for p, ext in sorted(m.items(), key=lambda kv: str(kv[0]))
-                   for k, v in sorted(ext.items())],
-            opaque=[[w, A.to_json(k), v] for w, m in sorted(self.opaque.items()) for k, v in sorted(m.items())],
+                   for k, v in sorted(ext.items(), key=repr)],
+            opaque=[[w, A.to_json(k), v] for w, m in sorted(self.opaque.items()) for k, v in sorted(m.items(), key=repr)],
             default=self.default)
 
     @classmethod
@@ -315,11 +315,11 @@ class Model:
     def describe(self):
         parts = [f'{self.logic} W={self.worlds} R={sorted(self.R)} D={[A.std(c) for c in self.consts]}']
         for w in self.worlds:
-            items = [f'{A.show(k)}={v}' for k, v in sorted(self.atoms.get(w, {}).items())]
+            items = [f'{A.show(k)}={v}' for k, v in sorted(self.atoms.get(w, {}).items(), key=repr)]
             for p, ext in sorted(self.preds.get(w, {}).items(), key=lambda kv: str(kv[0])):
-                for k, v in sorted(ext.items()):
+                for k, v in sorted(ext.items(), key=repr):
                     items.append(f'{A.show(("P", p, k))}={v}')
-            items += [f'[{A.show(k)}]={v}' for k, v in sorted(self.opaque.get(w, {}).items())]
+            items += [f'[{A.show(k)}]={v}' for k, v in sorted(self.opaque.get(w, {}).items(), key=repr)]
             parts.append(f'w{w}: ' + ' '.join(items))
         return ' | '.join(parts)
 
@@ -414,7 +414,7 @@ def prop_atoms(sentences):
         for x in A.subsentences(s):
             if x[0] in 'AP':
                 out.add(x)
-    return sorted(out)
+    return sorted(out, key=repr)
 
 def prop_value(logic, s, val):
     t = s[0]
